@@ -4,8 +4,8 @@
 package hx
 
 import (
-	"flag"
 	"encoding/json"
+	"flag"
 	"fmt"
 	"os"
 	"sort"
@@ -86,9 +86,9 @@ type Meta struct {
 	Harness     string                    `json:"harness"`
 	Seed        int64                     `json:"seed"`
 	Tier        string                    `json:"tier"`
-	Cases       int                       `json:"cases"`        // cases written for the model comparison
-	Evaluations int                       `json:"evaluations"`  // all executions on the implementation
-	Nontrivial  int                       `json:"nontrivial"`   // distinct & non-trivial by Rule
+	Cases       int                       `json:"cases"`       // cases written for the model comparison
+	Evaluations int                       `json:"evaluations"` // all executions on the implementation
+	Nontrivial  int                       `json:"nontrivial"`  // distinct & non-trivial by Rule
 	Rule        string                    `json:"rule"`
 	Dist        map[string]map[string]int `json:"distribution"` // histograms of the generated inputs
 	Samples     []interface{}             `json:"samples"`
